@@ -5,26 +5,27 @@
 EXTENDS UsmDefs
 
 \* ------------------------------------------------------------------ state machine: one exchange
-VARIABLES level, rtype, ctx, len127, pc, req, verdict, msg, outcome
-vars == <<level, rtype, ctx, len127, pc, req, verdict, msg, outcome>>
+VARIABLES level, rtype, ctx, len127, api, pc, req, verdict, msg, outcome
+vars == <<level, rtype, ctx, len127, api, pc, req, verdict, msg, outcome>>
 Disco == [engine |-> "E", boots |-> 3, time |-> 1000]
 Pending == [kind |-> "pending", type |-> "-", vbs |-> "-"]
 
 Init == /\ level \in Levels /\ rtype \in ReqTypes /\ ctx \in {"", "C"} /\ len127 \in BOOLEAN
+        /\ api \in (IF rtype \in {"GetNext", "GetBulk"} THEN Apis ELSE {"single"})      \* walks are made of GETNEXT / GETBULK exchanges
         /\ pc = "encode" /\ req = <<>> /\ verdict = "-" /\ msg = <<>> /\ outcome = Pending
 Encode == /\ pc = "encode" /\ req' = Request(level, rtype, Disco, ctx) /\ pc' = "agent"
-          /\ UNCHANGED <<level, rtype, ctx, len127, verdict, msg, outcome>>
+          /\ UNCHANGED <<level, rtype, ctx, len127, api, verdict, msg, outcome>>
 AgentStep == /\ pc = "agent" /\ verdict' = AgentVerdict(level, req, "E", 3, 1000) /\ pc' = "wire"
-             /\ UNCHANGED <<level, rtype, ctx, len127, req, msg, outcome>>
+             /\ UNCHANGED <<level, rtype, ctx, len127, api, req, msg, outcome>>
 \* the network hands the client either the authentic response or anything the attacker can build from it
 Deliver == /\ pc = "wire"
            /\ IF Attack /\ level # "noauth"
-              THEN \E m \in Msgs : CanSend(Authentic(level, len127), m) /\ msg' = m
+              THEN \E m \in AttackerMsgs(Authentic(level, len127)) : CanSend(Authentic(level, len127), m) /\ msg' = m
               ELSE msg' = Authentic(level, len127)
            /\ pc' = "decode"
-           /\ UNCHANGED <<level, rtype, ctx, len127, req, verdict, outcome>>
-Decode == /\ pc = "decode" /\ outcome' = Process(level, msg) /\ pc' = "done"
-          /\ UNCHANGED <<level, rtype, ctx, len127, req, verdict, msg>>
+           /\ UNCHANGED <<level, rtype, ctx, len127, api, req, verdict, outcome>>
+Decode == /\ pc = "decode" /\ outcome' = Caller(api, Process(level, msg)) /\ pc' = "done"
+          /\ UNCHANGED <<level, rtype, ctx, len127, api, req, verdict, msg>>
 Done == pc = "done" /\ UNCHANGED vars
 Next == Encode \/ AgentStep \/ Deliver \/ Decode \/ Done
 Spec == Init /\ [][Next]_vars
